@@ -136,10 +136,19 @@ def _observe_ids(case):
             return serialiser.AntismashResults.from_file(path).records
         finally:
             os.unlink(path)
+    def through_genbank_comments():
+        # what the GenBank outputs of this run say about these records (the antiSMASH-Data comment of each)
+        from antismash import main as core  # pylint: disable=import-outside-toplevel
+        out = kept["out"]
+        pairs = [(rec, rec.to_biopython()) for rec in out]
+        core.add_antismash_comments(pairs, state["options"])
+        return [bio.annotations["structured_comment"]["antiSMASH-Data"].get("Original ID", "") for _, bio in pairs]
     if event["res"]["exc"]:
         event["saved"] = {"exc": "", "v": []}
+        event["gbk"] = {"exc": "", "v": []}
     else:
         event["saved"] = P.result(through_results_file, [], lambda out: [_project_record(rec) for rec in out])
+        event["gbk"] = P.result(through_genbank_comments, [], lambda out: [enc(orig) for orig in out])
     return event
 
 
